@@ -310,7 +310,9 @@ P("C05", module="AJ.Props.C05All", extra=[("AJ.Props.C05", ["C05"]), ("AJ.Props.
                        S.JsonDocFSuite(cfg=DEF, n=600 if tier == "quick" else 60000), S.MpDocFSuite(cfg=DEF, n=600 if tier == "quick" else 60000),
                        # small pools: a member's key slot and value slot on either side of a pool boundary, the pool allocation failing
                        S.JsonDocSuite(cfg=G["tiny2"], n=400 if tier == "quick" else 40000), S.MpDocSuite(cfg=G["tiny2"], n=400 if tier == "quick" else 40000),
-                       S.JsonDocFSuite(cfg=G["tiny2"], n=300 if tier == "quick" else 30000), S.MpDocFSuite(cfg=G["tiny1"], n=300 if tier == "quick" else 30000)] +
+                       S.JsonDocFSuite(cfg=G["tiny2"], n=300 if tier == "quick" else 30000), S.MpDocFSuite(cfg=G["tiny1"], n=300 if tier == "quick" else 30000),
+                       # a string beyond the longest storable length is a failure without an allocator call (1-byte lengths: 255)
+                       S.FaultSuite(cfg=G["len1"], nh=80 if tier == "quick" else 3000)] +
   ([S.FaultSuite(cfg=G[g], nh=2000) for g in ("id1", "tiny2", "id1c10")] if tier == "thorough" else []),
   partial=["allocation failures inside the compiled binary are exercised by schedules, not enumerated exhaustively; the theorems are about the slot-level models tied by the allocator log"])
 
@@ -341,13 +343,18 @@ P("C19", module="AJ.Props.C19All", extra=[("AJ.Props.C19", ["C19"]), ("AJ.Props.
   "two documents with ANY two geometries and the same abstract value, running the same abstract history while staying below the slot limit with a non-failing allocator, end with the same "
   "abstract value (below_limit_succeeds: below the limit every allocation succeeds; needs poolCap >= 2 - with capacity 1 the model's maxPools is 0). The same histories are replayed "
   "under a matrix of geometries and compared with the model, including histories that cross the slot limit with 1-byte ids.",
-  level_note="C19Str: a failing string copy is clean (string_copy_fails_cleanly, copied/raw_string_set_fails_cleanly), reference counts are bounded by the number of live slots < 2^(8*idBytes) "
-  "(refcount_never_wraps(_history)), slot ids never wrap along histories; the STRING_LENGTH_SIZE limit itself is not in the slot-level model (model_has_no_string_length_limit) and is covered "
-  "on the implementation: strings, raw values and keys of exactly the longest storable length and one byte more (1-byte and 2-byte lengths) must succeed / fail cleanly (false, overflowed, "
+  level_note="C19Str: the STRING LENGTH limit is part of the slot-level model (Doc.maxStrLen, validated on histories with strings and keys of maxlen-1 / maxlen / maxlen+1 bytes in the 1-byte-length build): "
+  "string_length_limit_is_clean_edge - a new string longer than the limit is refused without any allocator call, the document is only flagged, pools, strings, cells and root are unchanged, every invariant is kept "
+  "(string_length_limit_keeps_invariants); string_at_limit_succeeds; copied_string_too_long_fails_cleanly / raw_string_too_long_fails_cleanly / key_too_long_fails_cleanly at document level (target null or object unchanged, "
+  "same abstract value elsewhere); usable_after_length_failure; string_copy_fails_iff (the two causes of failure, exactly); a failing string copy is clean (string_copy_failure_is_clean), reference counts are bounded by the number of "
+  "live slots < 2^(8*idBytes) (refcount_never_wraps(_history)), slot ids never wrap along histories; the deserializers' own limit tests are in the slot-level deserializer models; on the implementation: strings, raw values and keys "
+  "of exactly the longest storable length and one byte more (1-byte and 2-byte lengths) must succeed / fail cleanly (false, overflowed, "
   "nothing stored, usable again after clear)",
   suites=lambda tier: [S.HistSuite(cfg=G["id1c10"], nh=30 if tier == "quick" else 1500), S.HistSuite(cfg=G["id1i3"], nh=30 if tier == "quick" else 1500), S.HistSuite(cfg=G["len1"], nh=25 if tier == "quick" else 1500),
                        S.LimitSuite(cfg=G["id1c10"]), S.LimitSuite(cfg=G["tiny1"]), S.LimitSuite(cfg=G["id1i3"]), S.LimitSuite(cfg=G["len1"]), S.LimitSuite(cfg=G["id1c128"]),
-                       S.JsonDocSuite(cfg=G["id1c10"], n=300 if tier == "quick" else 30000), S.MpDocSuite(cfg=G["tiny2"], n=300 if tier == "quick" else 30000), S.JsonDocSuite(cfg=G["len1"], n=200 if tier == "quick" else 20000)] +
+                       S.JsonDocSuite(cfg=G["id1c10"], n=300 if tier == "quick" else 30000), S.MpDocSuite(cfg=G["tiny2"], n=300 if tier == "quick" else 30000), S.JsonDocSuite(cfg=G["len1"], n=200 if tier == "quick" else 20000),
+                       # the string length limit inside the history model: copied strings and keys of maxlen-1 / maxlen / maxlen+1 / maxlen+40 bytes among the operations, allocator failures on top
+                       S.FaultSuite(cfg=G["len1"], nh=120 if tier == "quick" else 4000)] +
   ([S.HistSuite(cfg=G[g], nh=1500) for g in ("tiny2", "len4", "id1")] if tier == "thorough" else []))
 
 P("C20", module="AJ.Props.C20All", extra=[("AJ.Props.C20", ["C20"]), ("AJ.Props.C20Hist", ["C20"])], level_text="On the API model itself (the history interpreter over three documents and ten references that the correspondence ties to the library, lean/AJ/Props/C20Hist.lean): "
